@@ -1324,3 +1324,562 @@ Lemma security_clash_witness :
   fresh_keys V30 doc_sec_clash (AGet (S "/me") (S "get"))
     = Val [Val []; Val [JStr (S "token")]; Val []; Val [JStr (S "api_key")]].
 Proof. split; vm_compute; reflexivity. Qed.
+
+(* ================================================================== JSON-pointer escaping of path keys
+   (after the seeded regression C08_d) *)
+Definition esc1 (c : N) : str := if N.eqb c 126 then [126; 48]%N else if N.eqb c 47 then [126; 49]%N else [c].
+Definition esc0 (c : N) : str := if N.eqb c 126 then [126; 48]%N else [c].
+
+Lemma escape_pointer_flat p : escape_pointer p = flat_map esc1 p.
+Proof.
+  unfold escape_pointer, replace_char. induction p as [|c p IH]; [reflexivity|].
+  cbn [flat_map]. rewrite flat_map_app. rewrite IH. f_equal.
+  unfold esc1. destruct (N.eqb c 126) eqn:E.
+  - reflexivity.
+  - cbn [flat_map]. rewrite app_nil_r. reflexivity.
+Qed.
+
+Lemma repl2_skip a b c x t : N.eqb x a = false -> repl2 a b c (x :: t) = x :: repl2 a b c t.
+Proof. intros H. destruct t as [|y r]; [reflexivity|]. cbn [repl2]. rewrite H. reflexivity. Qed.
+
+Lemma unescape_step1 p : repl2 126 49 47 (flat_map esc1 p) = flat_map esc0 p.
+Proof.
+  induction p as [|c p IH]; [reflexivity|]. cbn [flat_map]. unfold esc1 at 1, esc0 at 1.
+  destruct (N.eqb c 126) eqn:E.
+  - cbn [app].
+    change (repl2 126 49 47 (126 :: 48 :: flat_map esc1 p)%N) with (126 :: repl2 126 49 47 (48 :: flat_map esc1 p))%N.
+    rewrite repl2_skip by reflexivity. rewrite IH. reflexivity.
+  - destruct (N.eqb c 47) eqn:E2.
+    + cbn [app].
+      change (repl2 126 49 47 (126 :: 49 :: flat_map esc1 p)%N) with (47 :: repl2 126 49 47 (flat_map esc1 p))%N.
+      rewrite IH. apply N.eqb_eq in E2. subst c. reflexivity.
+    + cbn [app]. rewrite repl2_skip by exact E. rewrite IH. reflexivity.
+Qed.
+
+Lemma unescape_step2 p : repl2 126 48 126 (flat_map esc0 p) = p.
+Proof.
+  induction p as [|c p IH]; [reflexivity|]. cbn [flat_map]. unfold esc0 at 1.
+  destruct (N.eqb c 126) eqn:E.
+  - cbn [app].
+    change (repl2 126 48 126 (126 :: 48 :: flat_map esc0 p)%N) with (126 :: repl2 126 48 126 (flat_map esc0 p))%N.
+    rewrite IH. apply N.eqb_eq in E. subst c. reflexivity.
+  - cbn [app]. rewrite repl2_skip by exact E. rewrite IH. reflexivity.
+Qed.
+
+(* RFC 6901: decoding (~1 first, then ~0) inverts the encoding operation_reference applies, for EVERY string *)
+Lemma pointer_roundtrip p : unescape (escape_pointer p) = p.
+Proof. unfold unescape. rewrite escape_pointer_flat, unescape_step1, unescape_step2. reflexivity. Qed.
+
+Lemma escape_pointer_inj p q : escape_pointer p = escape_pointer q -> p = q.
+Proof. intros H. rewrite <- (pointer_roundtrip p), <- (pointer_roundtrip q), H. reflexivity. Qed.
+
+Lemma escape_pointer_chars p x : In x (escape_pointer p) -> x = 126%N \/ x = 48%N \/ x = 49%N \/ (In x p /\ x <> 47%N /\ x <> 126%N).
+Proof.
+  rewrite escape_pointer_flat. induction p as [|c p IH]; cbn [flat_map]; [intros []|].
+  rewrite in_app_iff. intros [H|H].
+  - unfold esc1 in H. destruct (N.eqb c 126) eqn:E; [cbn in H; intuition|].
+    destruct (N.eqb c 47) eqn:E2; [cbn in H; intuition|].
+    destruct H as [H|[]]. subst x. right; right; right. apply N.eqb_neq in E. apply N.eqb_neq in E2. split; [left; reflexivity | split; assumption].
+  - destruct (IH H) as [?|[?|[?|[? ?]]]]; auto. right; right; right. split; [right; assumption | assumption].
+Qed.
+
+Lemma escape_pointer_no_slash p : ~ In 47%N (escape_pointer p).
+Proof. intros H. apply escape_pointer_chars in H. destruct H as [H|[H|[H|[_ [H _]]]]]; try discriminate. apply H; reflexivity. Qed.
+
+Lemma escape_pointer_nonempty p : p <> [] -> exists t c, escape_pointer p = t ++ [c] /\ c <> 47%N.
+Proof.
+  intros Hp. destruct (exists_last (l := escape_pointer p)) as [t [c E]].
+  - rewrite escape_pointer_flat. destruct p as [|x p]; [congruence|]. cbn [flat_map]. unfold esc1.
+    destruct (N.eqb x 126); [discriminate|]. destruct (N.eqb x 47); discriminate.
+  - exists t, c. split; [exact E|]. intros ->. apply (escape_pointer_no_slash p). rewrite E. apply in_or_app. right. left. reflexivity.
+Qed.
+
+(* ------------------------------------------------------------------ split / rstrip on joined tokens *)
+Lemma split_on_aux_nosep sep s : forall cur, ~ In sep s -> split_on_aux sep s cur = [rev cur ++ s].
+Proof.
+  induction s as [|c s IH]; intros cur H; cbn [split_on_aux]; [rewrite app_nil_r; reflexivity|].
+  destruct (N.eqb c sep) eqn:E; [apply N.eqb_eq in E; subst; exfalso; apply H; left; reflexivity|].
+  rewrite IH by (intros X; apply H; right; exact X). cbn [rev]. rewrite <- app_assoc. reflexivity.
+Qed.
+
+Lemma split_on_aux_app sep a b : forall cur, ~ In sep a ->
+  split_on_aux sep (a ++ sep :: b) cur = (rev cur ++ a) :: split_on_aux sep b [].
+Proof.
+  induction a as [|c a IH]; intros cur H; cbn [app split_on_aux].
+  - rewrite N.eqb_refl, app_nil_r. reflexivity.
+  - destruct (N.eqb c sep) eqn:E; [apply N.eqb_eq in E; subst; exfalso; apply H; left; reflexivity|].
+    rewrite IH by (intros X; apply H; right; exact X). cbn [rev]. rewrite <- app_assoc. reflexivity.
+Qed.
+
+Lemma split_on_app sep a b : ~ In sep a -> split_on sep (a ++ sep :: b) = a :: split_on sep b.
+Proof. intros H. unfold split_on. rewrite split_on_aux_app by exact H. reflexivity. Qed.
+Lemma split_on_nosep sep s : ~ In sep s -> split_on sep s = [s].
+Proof. intros H. unfold split_on. rewrite split_on_aux_nosep by exact H. reflexivity. Qed.
+
+Lemma rstrip_slash_id t c : c <> 47%N -> rstrip_slash (t ++ [c]) = t ++ [c].
+Proof.
+  intros H. unfold rstrip_slash. rewrite rev_app_distr. cbn [rev app strip_left mem existsb].
+  apply N.eqb_neq in H. rewrite H. cbn [orb]. cbn [rev]. rewrite rev_involutive. reflexivity.
+Qed.
+
+(* ------------------------------------------------------------------ the reference operation_reference builds, taken apart *)
+Definition meth_ok (m : str) : bool :=
+  str_eqb (lower_ascii m) m && negb (mem 47 m) && negb (mem 126 m) && negb (mem 37 m) && negb (is_nil m).
+
+Lemma http_method_ok m : is_http_method m = true -> meth_ok m = true.
+Proof.
+  unfold is_http_method. rewrite existsb_exists. intros [x [Hin He]]. apply str_eqb_spec in He. subst x.
+  assert (F : forallb meth_ok HTTP_METHODS = true) by (vm_compute; reflexivity).
+  rewrite forallb_forall in F. apply F. exact Hin.
+Qed.
+
+Lemma not_mem c s : negb (mem c s) = true -> ~ In c s.
+Proof. intros H X. apply mem_spec in X. rewrite X in H. discriminate. Qed.
+
+Lemma http_method_props m : is_http_method m = true ->
+  lower_ascii m = m /\ ~ In 47%N m /\ ~ In 126%N m /\ ~ In 37%N m /\ exists t c, m = t ++ [c] /\ c <> 47%N.
+Proof.
+  intros H. apply http_method_ok in H. unfold meth_ok in H.
+  repeat (apply andb_true_iff in H; let H2 := fresh "H" in destruct H as [H H2]).
+  apply str_eqb_spec in H. apply not_mem in H3. apply not_mem in H2. apply not_mem in H1.
+  repeat split; try assumption.
+  destruct m as [|x m]; [discriminate|]. destruct (exists_last (l := x :: m)) as [t [c E]]; [discriminate|].
+  exists t, c. split; [exact E|]. intros ->. apply H3. rewrite E. apply in_or_app. right. left. reflexivity.
+Qed.
+
+Lemma reference_of_join p m : reference_of p m = ([35] ++ 47 :: k_paths ++ 47 :: escape_pointer p ++ 47 :: m)%N.
+Proof. reflexivity. Qed.
+
+Lemma k_paths_no_slash : ~ In 47%N k_paths.
+Proof. apply not_mem. vm_compute. reflexivity. Qed.
+
+Lemma split_reference p m : ~ In 47%N m -> split_on 47 (reference_of p m) = [[35%N]; k_paths; escape_pointer p; m].
+Proof.
+  intros Hm. rewrite reference_of_join.
+  rewrite split_on_app by (intros [X|[]]; discriminate).
+  rewrite split_on_app by exact k_paths_no_slash.
+  rewrite split_on_app by apply escape_pointer_no_slash.
+  rewrite split_on_nosep by exact Hm. reflexivity.
+Qed.
+
+Lemma rstrip_reference p m : (exists t c, m = t ++ [c] /\ c <> 47%N) -> rstrip_slash (reference_of p m) = reference_of p m.
+Proof.
+  intros [t [c [E Hc]]]. subst m. unfold reference_of.
+  replace (S "#/paths/" ++ escape_pointer p ++ 47%N :: t ++ [c]) with ((S "#/paths/" ++ escape_pointer p ++ 47%N :: t) ++ [c]).
+  - apply rstrip_slash_id. exact Hc.
+  - rewrite <- app_assoc. f_equal. rewrite <- app_assoc. reflexivity.
+Qed.
+
+(* the round trip of the whole reference, for ALL path strings: the (path, method) get_operation_by_reference
+   derives from operation_reference is the operation's own *)
+Lemma reference_roundtrip p m : ~ In 47%N m -> m <> [] -> path_of_reference (reference_of p m) = Some (p, m).
+Proof.
+  intros Hm Hne. unfold path_of_reference, path_of_url.
+  rewrite rstrip_reference.
+  - rewrite split_reference by exact Hm. cbn [last_two rev app]. rewrite pointer_roundtrip. reflexivity.
+  - destruct (exists_last Hne) as [t [c E]]. exists t, c. split; [exact E|]. intros ->. apply Hm. rewrite E. apply in_or_app. right. left. reflexivity.
+Qed.
+
+Lemma reference_of_inj p m q n : ~ In 47%N m -> m <> [] -> reference_of p m = reference_of q n -> ~ In 47%N n -> n <> [] -> p = q /\ m = n.
+Proof.
+  intros Hm Hne E Hn Hnn. pose proof (reference_roundtrip p m Hm Hne) as R1. pose proof (reference_roundtrip q n Hn Hnn) as R2.
+  rewrite E in R1. rewrite R1 in R2. inversion R2. auto.
+Qed.
+
+(* the sentinel: with the two substitutions in the other order the token ~01 (a literal ~1 in the path) becomes a slash,
+   and two different paths of one document are decoded to the same path *)
+Lemma pointer_roundtrip_wrong_order_refuted :
+  unescape_wrong (escape_pointer (S "~1")) = S "/" /\ unescape_wrong (escape_pointer (S "~1")) <> S "~1" /\
+  S "/a/v~1" <> S "/a/v/" /\
+  path_of_url unescape_wrong (reference_of (S "/a/v~1") (S "get")) = Some (S "/a/v/", S "get") /\
+  path_of_url unescape_wrong (reference_of (S "/a/v/") (S "get")) = Some (S "/a/v/", S "get") /\
+  path_of_url unescape (reference_of (S "/a/v~1") (S "get")) = Some (S "/a/v~1", S "get").
+Proof. repeat split; try (vm_compute; reflexivity); vm_compute; discriminate. Qed.
+
+(* ------------------------------------------------------------------ resolving such a reference *)
+Lemma pct_high_nopct s : ~ In 37%N s -> pct_high s = false.
+Proof.
+  induction s as [|c t IH]; intros H; [reflexivity|]. cbn [pct_high].
+  destruct (N.eqb c 37) eqn:E; [apply N.eqb_eq in E; subst; exfalso; apply H; left; reflexivity|].
+  apply IH. intros X. apply H. right. exact X.
+Qed.
+Lemma unquote_nopct s : ~ In 37%N s -> unquote s = s.
+Proof.
+  induction s as [|c t IH]; intros H; [reflexivity|]. cbn [unquote].
+  destruct (N.eqb c 37) eqn:E; [apply N.eqb_eq in E; subst; exfalso; apply H; left; reflexivity|].
+  rewrite IH; [reflexivity|]. intros X. apply H. right. exact X.
+Qed.
+Lemma repl2_absent a b c s : ~ In a s -> repl2 a b c s = s.
+Proof.
+  induction s as [|x t IH]; intros H; [reflexivity|].
+  rewrite repl2_skip.
+  - rewrite IH; [reflexivity|]. intros X. apply H. right. exact X.
+  - apply N.eqb_neq. intros ->. apply H. left. reflexivity.
+Qed.
+Lemma unescape_notilde s : ~ In 126%N s -> unescape s = s.
+Proof. intros H. unfold unescape. rewrite (repl2_absent 126 49 47 s H). apply repl2_absent. exact H. Qed.
+
+Lemma resolve_tokens doc x f t c parts v :
+  x <> 47%N -> x :: f = t ++ [c] -> c <> 47%N -> ~ In 37%N (x :: f) ->
+  split_on 47 (x :: f) = parts -> pointer_walk doc (map unescape parts) = Some v ->
+  resolve doc (35 :: 47 :: x :: f)%N = Val ((35 :: 47 :: x :: f)%N, v).
+Proof.
+  intros Hx Hl Hc Hp Hs Hw. unfold resolve.
+  assert (R : rstrip_slash (35 :: 47 :: x :: f)%N = (35 :: 47 :: x :: f)%N).
+  { rewrite Hl. change (35 :: 47 :: t ++ [c])%N with ((35 :: 47 :: t) ++ [c])%N. apply rstrip_slash_id. exact Hc. }
+  rewrite R. cbn [strip_left mem existsb]. rewrite N.eqb_refl. cbn [orb].
+  apply N.eqb_neq in Hx. rewrite Hx. cbn [orb is_nil].
+  rewrite (pct_high_nopct _ Hp), (unquote_nopct _ Hp), Hs, Hw. reflexivity.
+Qed.
+
+Lemma opt_json_eqb_eq a b : opt_json_eqb a b = true -> a = b.
+Proof. destruct a, b; cbn; intros H; try discriminate; [apply json_eqb_eq in H; subst|]; reflexivity. Qed.
+
+Record plain (doc : json) (p m : str) (kvs : list (str * json)) (opj : json) : Prop := {
+  pl_entry : entry_of doc p = Some kvs;
+  pl_ne : p <> [];
+  pl_pct : ~ In 37%N p;
+  pl_meth : is_http_method m = true;
+  pl_noref : assoc_mem k_ref kvs = false;
+  pl_op : assoc_get m kvs = Some opj;
+  pl_ci : ci_get m kvs = Some opj;
+  pl_params : ci_get k_parameters kvs = assoc_get k_parameters kvs }.
+
+Lemma plain_entry_spec doc p m : plain_entry doc p m = true -> exists kvs opj, plain doc p m kvs opj.
+Proof.
+  unfold plain_entry. destruct (entry_of doc p) as [kvs|] eqn:Ee; [|discriminate]. intros H.
+  repeat (apply andb_true_iff in H; let H2 := fresh "H" in destruct H as [H H2]).
+  unfold assoc_mem in H2. destruct (assoc_get m kvs) as [opj|] eqn:Eo; [|discriminate].
+  exists kvs, opj. apply opt_json_eqb_eq in H1. apply opt_json_eqb_eq in H0.
+  constructor; try assumption.
+  - destruct p; [discriminate | discriminate].
+  - apply not_mem. exact H5.
+  - apply negb_true_iff. exact H3.
+Qed.
+
+Lemma entry_walk doc p kvs : entry_of doc p = Some kvs ->
+  pointer_walk doc [k_paths; p] = Some (JObj kvs).
+Proof.
+  unfold entry_of. destruct doc as [| | | | |top]; try discriminate.
+  destruct (assoc_get k_paths top) as [[| | | | |paths]|] eqn:E1; try discriminate.
+  destruct (assoc_get p paths) as [[| | | | |kvs']|] eqn:E2; try discriminate.
+  intros H; inversion H; subst kvs'. cbn [pointer_walk pointer_step]. rewrite E1. cbn [pointer_step]. rewrite E2. reflexivity.
+Qed.
+
+Lemma escape_pointer_no_pct p : ~ In 37%N p -> ~ In 37%N (escape_pointer p).
+Proof. intros H X. apply escape_pointer_chars in X. destruct X as [X|[X|[X|[X _]]]]; try discriminate. apply H; exact X. Qed.
+
+Lemma k_paths_no_pct : ~ In 37%N k_paths.
+Proof. apply not_mem. vm_compute. reflexivity. Qed.
+
+Section Plain.
+  Variables (doc : json) (p m : str) (kvs : list (str * json)) (opj : json).
+  Hypothesis P : plain doc p m kvs opj.
+
+  Lemma resolve_reference : resolve doc (reference_of p m) = Val (reference_of p m, opj).
+  Proof.
+    destruct (http_method_props m (pl_meth _ _ _ _ _ P)) as [_ [Hs [Ht [Hp [t [c [Em Hc]]]]]]].
+    change (reference_of p m) with (35 :: 47 :: 112 :: ([97;116;104;115] ++ 47 :: escape_pointer p ++ 47 :: m))%N.
+    apply resolve_tokens with (t := (k_paths ++ 47 :: escape_pointer p ++ 47 :: t)%N) (c := c)
+                              (parts := [k_paths; escape_pointer p; m]).
+    - discriminate.
+    - rewrite Em. change (112 :: [97;116;104;115] ++ 47 :: escape_pointer p ++ 47 :: t ++ [c])%N
+        with (k_paths ++ 47 :: escape_pointer p ++ 47 :: t ++ [c])%N.
+      rewrite <- app_assoc. cbn [app]. rewrite <- app_assoc. reflexivity.
+    - exact Hc.
+    - change (112 :: [97;116;104;115] ++ 47 :: escape_pointer p ++ 47 :: m)%N with (k_paths ++ 47 :: escape_pointer p ++ 47 :: m)%N.
+      intros X. apply in_app_or in X. destruct X as [X|[X|X]]; [exact (k_paths_no_pct X) | discriminate |].
+      apply in_app_or in X. destruct X as [X|[X|X]]; [exact (escape_pointer_no_pct p (pl_pct _ _ _ _ _ P) X) | discriminate | exact (Hp X)].
+    - change (112 :: [97;116;104;115] ++ 47 :: escape_pointer p ++ 47 :: m)%N with (k_paths ++ 47 :: escape_pointer p ++ 47 :: m)%N.
+      rewrite split_on_app by exact k_paths_no_slash.
+      rewrite split_on_app by apply escape_pointer_no_slash.
+      rewrite split_on_nosep by exact Hs. reflexivity.
+    - cbn [map]. rewrite pointer_roundtrip, (unescape_notilde m Ht).
+      change (unescape k_paths) with k_paths.
+      change [k_paths; p; m] with ([k_paths; p] ++ [m]).
+      assert (W : forall a b d, pointer_walk d (a ++ b) = match pointer_walk d a with Some d' => pointer_walk d' b | None => None end).
+      { induction a as [|x a IH]; intros b d; [reflexivity|]. cbn [app pointer_walk]. destruct (pointer_step d x); [apply IH | reflexivity]. }
+      rewrite W, (entry_walk doc p kvs (pl_entry _ _ _ _ _ P)). cbn [pointer_walk pointer_step]. rewrite (pl_op _ _ _ _ _ P). reflexivity.
+  Qed.
+
+  Definition parent_of : str := (35 :: 47 :: k_paths ++ 47 :: escape_pointer p)%N.
+
+  Lemma before_last_slash_reference : before_last_slash (reference_of p m) = Some parent_of.
+  Proof.
+    destruct (http_method_props m (pl_meth _ _ _ _ _ P)) as [_ [Hs _]].
+    unfold before_last_slash. rewrite split_reference by exact Hs. reflexivity.
+  Qed.
+
+  Lemma resolve_parent : resolve doc parent_of = Val (parent_of, JObj kvs).
+  Proof.
+    destruct (escape_pointer_nonempty p (pl_ne _ _ _ _ _ P)) as [t [c [Ee Hc]]].
+    unfold parent_of.
+    change (35 :: 47 :: k_paths ++ 47 :: escape_pointer p)%N with (35 :: 47 :: 112 :: ([97;116;104;115] ++ 47 :: escape_pointer p))%N.
+    apply resolve_tokens with (t := (k_paths ++ 47 :: t)%N) (c := c) (parts := [k_paths; escape_pointer p]).
+    - discriminate.
+    - rewrite Ee. change (112 :: [97;116;104;115] ++ 47 :: t ++ [c])%N with (k_paths ++ 47 :: t ++ [c])%N.
+      rewrite <- app_assoc. reflexivity.
+    - exact Hc.
+    - change (112 :: [97;116;104;115] ++ 47 :: escape_pointer p)%N with (k_paths ++ 47 :: escape_pointer p)%N.
+      intros X. apply in_app_or in X. destruct X as [X|[X|X]]; [exact (k_paths_no_pct X) | discriminate |].
+      exact (escape_pointer_no_pct p (pl_pct _ _ _ _ _ P) X).
+    - change (112 :: [97;116;104;115] ++ 47 :: escape_pointer p)%N with (k_paths ++ 47 :: escape_pointer p)%N.
+      rewrite split_on_app by exact k_paths_no_slash.
+      rewrite split_on_nosep by apply escape_pointer_no_slash. reflexivity.
+    - cbn [map]. rewrite pointer_roundtrip. change (unescape k_paths) with k_paths.
+      apply entry_walk. exact (pl_entry _ _ _ _ _ P).
+  Qed.
+
+  Lemma fresh_map_plain : fresh_map doc p = Val ([], JObj kvs).
+  Proof.
+    pose proof (pl_entry _ _ _ _ _ P) as E. unfold entry_of in E.
+    destruct doc as [| | | | |top]; try discriminate.
+    destruct (assoc_get k_paths top) as [[| | | | |paths]|] eqn:E1; try discriminate.
+    destruct (assoc_get p paths) as [[| | | | |kvs']|] eqn:E2; try discriminate.
+    inversion E; subst kvs'.
+    unfold fresh_map, py_get_d. cbn [py_get bind]. rewrite E1. cbn [bind py_item]. rewrite E2. cbn [bind].
+    unfold resolve_path_item. cbn [py_in bind]. rewrite (pl_noref _ _ _ _ _ P). cbn [bind ci_dict]. reflexivity.
+  Qed.
+End Plain.
+
+(* ------------------------------------------------------------------ the recorded scope does not influence what is built *)
+Definition set_scope (s : str) (o : operation) : operation :=
+  {| o_path := o_path o; o_method := o_method o; o_raw := o_raw o; o_resolved := o_resolved o; o_scope := s;
+     o_pathp := o_pathp o; o_headers := o_headers o; o_cookies := o_cookies o; o_query := o_query o; o_body := o_body o |}.
+
+Lemma add_to_set_scope s o l p : add_to (set_scope s o) l p = set_scope s (add_to o l p).
+Proof. destruct l; reflexivity. Qed.
+
+Lemma add_parameter_set_scope s o p : add_parameter (set_scope s o) p = res_proj (set_scope s) (add_parameter o p).
+Proof.
+  unfold add_parameter. destruct (p_location p) as [l|]; cbn [bind res_proj]; [|reflexivity].
+  destruct (loc_of l); [rewrite add_to_set_scope|]; reflexivity.
+Qed.
+
+Lemma add_parameters_set_scope s ps : forall o, add_parameters (set_scope s o) ps = res_proj (set_scope s) (add_parameters o ps).
+Proof.
+  induction ps as [|p r IH]; intros o; [reflexivity|]. cbn [add_parameters]. rewrite add_parameter_set_scope.
+  destruct (add_parameter o p) as [o1|]; cbn [bind res_proj]; [apply IH | reflexivity].
+Qed.
+
+Lemma get_parameter_set_scope s o n l : get_parameter (set_scope s o) n l = get_parameter o n l.
+Proof.
+  unfold get_parameter. destruct (negb (hashable l)); [reflexivity|].
+  destruct (loc_of l) as [c|]; [destruct c|]; reflexivity.
+Qed.
+
+Lemma process_definitions_set_scope v s defs : forall o,
+  process_definitions v defs (set_scope s o) = res_proj (set_scope s) (process_definitions v defs o).
+Proof.
+  induction defs as [|d r IH]; intros o; [reflexivity|]. cbn [process_definitions].
+  destruct (py_get d k_name) as [name|]; cbn [bind res_proj]; [|reflexivity].
+  destruct (py_get d k_in) as [location|]; cbn [bind res_proj]; [|reflexivity].
+  match goal with |- bind ?x _ = res_proj _ (bind ?y _) => assert (Esk : x = y) end.
+  { destruct name as [n|]; [|reflexivity]. destruct location as [l|]; [|destruct n; reflexivity].
+    destruct n, l; try reflexivity; rewrite get_parameter_set_scope; reflexivity. }
+  rewrite Esk. match goal with |- bind ?x _ = _ => destruct x as [sk|] end; cbn [bind res_proj]; [|reflexivity].
+  destruct sk; [apply IH|].
+  destruct (py_item d k_type) as [ty|]; cbn [bind res_proj]; [|reflexivity].
+  match goal with |- bind ?x _ = res_proj _ (bind ?y _) => assert (E1 : x = res_proj (set_scope s) y) end.
+  { destruct (json_eqb ty (JStr s_apiKey)); [|reflexivity].
+    destruct (api_key_param v d); cbn [bind res_proj]; [apply add_parameter_set_scope | reflexivity]. }
+  rewrite E1. match goal with |- bind (res_proj _ ?y) _ = _ => destruct y as [o1|] end; cbn [bind res_proj]; [|reflexivity].
+  match goal with |- bind ?x _ = res_proj _ (bind ?y _) => assert (E2 : x = res_proj (set_scope s) y) end.
+  { destruct (json_eqb ty (JStr (if is_v20 v then s_basic else s_http))); [|reflexivity].
+    destruct (http_auth_param v d); cbn [bind res_proj]; [apply add_parameter_set_scope | reflexivity]. }
+  rewrite E2. match goal with |- bind (res_proj _ ?y) _ = _ => destruct y as [o2|] end; cbn [bind res_proj]; [|reflexivity].
+  apply IH.
+Qed.
+
+Lemma add_security_set_scope v doc s o : add_security v doc (set_scope s o) = res_proj (set_scope s) (add_security v doc o).
+Proof.
+  unfold add_security. change (o_raw (set_scope s o)) with (o_raw o).
+  destruct (security_definitions v doc) as [defs|]; cbn [bind res_proj]; [|reflexivity].
+  destruct (security_requirements doc (o_raw o)) as [reqs|]; cbn [bind res_proj]; [|reflexivity].
+  destruct (py_items defs) as [kvs|]; cbn [bind res_proj]; [|reflexivity].
+  apply process_definitions_set_scope.
+Qed.
+
+Lemma make_operation_scope v doc path method params raw resolved s1 s2 :
+  make_operation v doc path method params raw resolved s2
+  = res_proj (set_scope s2) (make_operation v doc path method params raw resolved s1).
+Proof.
+  unfold make_operation.
+  change (empty_op path method raw resolved s2) with (set_scope s2 (empty_op path method raw resolved s1)).
+  rewrite add_parameters_set_scope.
+  destruct (add_parameters (empty_op path method raw resolved s1) params) as [o|]; cbn [bind res_proj]; [apply add_security_set_scope | reflexivity].
+Qed.
+
+Lemma build_op_scope_core v doc path method shared entry resolved s1 s2 :
+  res_core (build_op v doc path method shared entry resolved s1) = res_core (build_op v doc path method shared entry resolved s2).
+Proof.
+  unfold build_op.
+  destruct (py_get_d resolved k_parameters (JArr [])) as [params|]; cbn [bind]; [|reflexivity].
+  destruct (collect v doc params shared resolved) as [collected|]; cbn [bind]; [|reflexivity].
+  rewrite (make_operation_scope v doc path method collected entry resolved s1 s2).
+  destruct (make_operation v doc path method collected entry resolved s1); reflexivity.
+Qed.
+
+(* ------------------------------------------------------------------ a lookup by operation_reference and a lookup by (path, method)
+   address the same cache entry and build the same operation *)
+Transparent shared_parameters.
+Lemma plain_plans v doc p m kvs opj : plain doc p m kvs opj ->
+  pgo v doc (AByRef (reference_of p m))
+    = Some (([], p, m), build_by_ref v doc (reference_of p m) (reference_of p m) p m opj, (fun _ => None), Some (reference_of p m))
+  /\ pgo v doc (AGet p m) = Some (([], p, m), build_by_path v doc p m [] kvs opj, id_of_resolved, None)
+  /\ res_core (build_by_ref v doc (reference_of p m) (reference_of p m) p m opj) = res_core (build_by_path v doc p m [] kvs opj).
+Proof.
+  intros P. destruct (http_method_props m (pl_meth _ _ _ _ _ P)) as [Hl [Hs _]].
+  split; [|split].
+  - cbn [pgo]. rewrite (resolve_reference doc p m kvs opj P). rewrite split_reference by exact Hs.
+    cbn [last_two rev app]. rewrite pointer_roundtrip. reflexivity.
+  - cbn [pgo]. rewrite (fresh_map_plain doc p m kvs opj P). rewrite Hl, (pl_ci _ _ _ _ _ P). reflexivity.
+  - unfold build_by_ref, build_by_path.
+    destruct (resolve_op doc opj) as [resolved|]; cbn [bind]; [|reflexivity].
+    rewrite (before_last_slash_reference doc p m kvs opj P). cbn [bind].
+    rewrite (resolve_parent doc p m kvs opj P). cbn [bind].
+    unfold shared_parameters, py_get_d. cbn [py_get bind]. rewrite (pl_params _ _ _ _ _ P).
+    destruct (resolve_op doc match assoc_get k_parameters kvs with Some x => x | None => JArr [] end) as [shared|]; cbn [bind]; [|reflexivity].
+    apply build_op_scope_core.
+Qed.
+
+Opaque shared_parameters.
+
+Lemma to_lookup_error_core r : res_core (to_lookup_error r) = to_lookup_error (res_core r).
+Proof. destruct r as [o|[]]; reflexivity. Qed.
+
+(* on fresh schema objects: the lookup by operation_reference returns what the lookup by path and method returns
+   (KeyError from the build is reported as LookupError by MethodMap.__getitem__, as KeyError by the reference route) *)
+Lemma reference_lookup_is_path_lookup v doc p m :
+  plain_entry doc p m = true -> self_ok v doc (AGet p m) = true ->
+  to_lookup_error (res_core (fresh_op v doc (AByRef (reference_of p m)))) = res_core (fresh_op v doc (AGet p m)).
+Proof.
+  intros H S. destruct (plain_entry_spec doc p m H) as [kvs [opj P]].
+  destruct (plain_plans v doc p m kvs opj P) as [Pr [Pg E]].
+  rewrite (fresh_planned v doc _ _ Pr), (fresh_planned v doc _ _ Pg). cbn [planned post_of id_ok].
+  unfold self_ok in S. rewrite Pg in S.
+  destruct (build_by_ref v doc (reference_of p m) (reference_of p m) p m opj) as [o1|e1];
+    destruct (build_by_path v doc p m [] kvs opj) as [o2|e2]; cbn [res_core res_proj] in E; try discriminate.
+  - rewrite S. rewrite to_lookup_error_core. unfold res_core. cbn [res_proj]. f_equal. exact E.
+  - rewrite to_lookup_error_core. cbn [res_core res_proj]. inversion E. reflexivity.
+Qed.
+
+(* ------------------------------------------------------------------ every sequence of such lookups is coherent *)
+Lemma list_eqb_refl {A} (eqb : A -> A -> bool) (R : forall x, eqb x x = true) l : list_eqb eqb l l = true.
+Proof. induction l as [|x l IH]; [reflexivity|]. cbn [list_eqb]. rewrite R, IH. reflexivity. Qed.
+
+Lemma param_eqb_refl p : param_eqb p p = true.
+Proof. destruct p; cbn [param_eqb]; rewrite ?json_eqb_refl, ?(list_eqb_refl json_eqb json_eqb_refl); reflexivity. Qed.
+
+Lemma op_core_eqb_complete a b : op_core a = op_core b -> op_core_eqb a b = true.
+Proof.
+  unfold op_core, op_core_eqb. intros H. inversion H as [[H1 H2 H3 H4 H5 H6 H7 H8 H9]].
+  rewrite H1, H2, H3, H4, H5, H6, H7, H8, H9.
+  rewrite !str_eqb_refl, !json_eqb_refl, !(list_eqb_refl param_eqb param_eqb_refl). reflexivity.
+Qed.
+
+Lemma plain_access_plan v doc a : plain_access doc a = true ->
+  exists p m kvs opj b idf rf, plain doc p m kvs opj /\ pgo v doc a = Some (([], p, m), b, idf, rf)
+    /\ res_core b = res_core (build_by_path v doc p m [] kvs opj) /\ is_by_id a = false.
+Proof.
+  destruct a as [|p m|i|r]; cbn [plain_access]; try discriminate.
+  - intros H. destruct (plain_entry_spec doc p m H) as [kvs [opj P]].
+    destruct (plain_plans v doc p m kvs opj P) as [_ [Pg _]].
+    exists p, m, kvs, opj. do 3 eexists. split; [exact P|]. split; [exact Pg|]. split; reflexivity.
+  - destruct (path_of_reference r) as [[p m]|]; [|discriminate]. intros H.
+    apply andb_true_iff in H. destruct H as [H Er]. apply str_eqb_spec in Er. subst r.
+    destruct (plain_entry_spec doc p m H) as [kvs [opj P]].
+    destruct (plain_plans v doc p m kvs opj P) as [Pr [_ E]].
+    exists p, m, kvs, opj. do 3 eexists. split; [exact P|]. split; [exact Pr|]. split; [exact E | reflexivity].
+Qed.
+
+Lemma plain_pair_ok v doc a b : plain_access doc a = true -> plain_access doc b = true -> pair_ok v doc a b = true.
+Proof.
+  intros Ha Hb.
+  destruct (plain_access_plan v doc a Ha) as (p & m & kvs & opj & ba & idfa & rfa & Pa & Pga & Ea & Na).
+  destruct (plain_access_plan v doc b Hb) as (p' & m' & kvs' & opj' & bb & idfb & rfb & Pb & Pgb & Eb & Nb).
+  unfold pair_ok, pair_ok_gen. rewrite Pga. destruct ba as [oa|]; [|reflexivity]. rewrite Pgb.
+  apply andb_true_iff. split.
+  - destruct (tkey_eqb ([], p, m) ([], p', m')) eqn:Ek; [|reflexivity]. cbn [negb orb].
+    apply tkey_eqb_f in Ek. inversion Ek; subst p' m'.
+    pose proof (pl_entry _ _ _ _ _ Pa) as E1. rewrite (pl_entry _ _ _ _ _ Pb) in E1. inversion E1; subst kvs'.
+    pose proof (pl_op _ _ _ _ _ Pa) as E2. rewrite (pl_op _ _ _ _ _ Pb) in E2. inversion E2; subst opj'.
+    rewrite <- Eb in Ea. destruct bb as [ob|]; cbn [res_core res_proj] in Ea; [|discriminate].
+    apply op_core_eqb_complete. assert (X : forall (x y : str * str * json * json * (list param * list param * list param * list param * list param)), Val x = Val y -> x = y) by (intros x y Hxy; inversion Hxy; reflexivity). apply X. exact Ea.
+  - destruct (idfa oa); [|reflexivity]. destruct b; try reflexivity. discriminate.
+Qed.
+
+Lemma plain_coherent v doc U :
+  forallb (plain_access doc) U = true -> forallb (self_ok v doc) U = true -> coherent v doc U = true.
+Proof.
+  intros HP HS. unfold coherent, coherent_gen. rewrite HS. cbn [andb].
+  rewrite forallb_forall in HP. apply andb_true_iff. split.
+  - apply forallb_forall. intros a Ha. apply forallb_forall. intros b Hb. apply plain_pair_ok; apply HP; assumption.
+  - apply orb_true_iff. left. apply negb_true_iff.
+    destruct (existsb is_by_id U) eqn:E; [|reflexivity].
+    apply existsb_exists in E. destruct E as [a [Ha Hi]]. specialize (HP a Ha). destruct a; discriminate.
+Qed.
+
+(* for every document and EVERY sequence of lookups by (path, method) and by operation_reference of plain entries, in any
+   order and number: each lookup returns what it returns on a fresh schema object *)
+Lemma plain_lookups_refine_fresh v doc accs :
+  forallb (plain_access doc) accs = true -> forallb (self_ok v doc) accs = true ->
+  map result_core (run v doc empty_cache accs) = map (fun a => result_core (fresh v doc a)) accs.
+Proof. intros HP HS. apply cache_refines_fresh. apply plain_coherent; assumption. Qed.
+
+(* ------------------------------------------------------------------ witnesses *)
+Definition ok_responses : str * json := (S "responses", JObj [(S "200", JObj [(k_description, JStr (S "ok"))])]).
+Definition op_with (id : str) (pname ploc : str) : json :=
+  JObj [(k_operationId, JStr id);
+        (k_parameters, JArr [JObj [(k_name, JStr pname); (k_in, JStr ploc); (k_schema, JObj [(k_type, JStr s_string)])]]);
+        ok_responses].
+Definition m_get' : str := S "get".
+(* a literal ~1 in one path, and the path the wrong-order decoding would turn it into *)
+Definition doc_tilde : json :=
+  JObj [(S "openapi", JStr (S "3.0.2"));
+        (k_paths, JObj [(S "/a/v/", JObj [(m_get', op_with (S "listArchive") (S "page") s_query)]);
+                        (S "/a/v~1", JObj [(m_get', op_with (S "getShortName") (S "token") s_header)])])].
+Definition accs_tilde : list access :=
+  [AGet (S "/a/v/") m_get'; AByRef (reference_of (S "/a/v~1") m_get'); AGet (S "/a/v~1") m_get';
+   AByRef (reference_of (S "/a/v/") m_get'); AByRef (reference_of (S "/a/v~1") m_get')].
+
+Lemma plain_lookups_nonvacuous :
+  forallb (plain_access doc_tilde) accs_tilde = true /\ forallb (self_ok V30 doc_tilde) accs_tilde = true /\
+  reference_of (S "/a/v~1") m_get' = S "#/paths/~1a~1v~01/get" /\
+  exists o, nth_error (run V30 doc_tilde empty_cache accs_tilde) 1 = Some (ROp (Val o)) /\
+            o_path o = S "/a/v~1" /\ o_raw o = op_with (S "getShortName") (S "token") s_header /\ List.length (o_headers o) = 1%nat.
+Proof.
+  split; [vm_compute; reflexivity|]. split; [vm_compute; reflexivity|]. split; [vm_compute; reflexivity|].
+  vm_compute. eexists. repeat split; reflexivity.
+Qed.
+
+(* percent signs: operation_reference does not escape them and the resolver unquotes the fragment before it is split *)
+Definition doc_pct : json :=
+  JObj [(S "openapi", JStr (S "3.0.2"));
+        (k_paths, JObj [(S "/a%7Eb", JObj [(m_get', op_with (S "one") (S "x") s_query)]);
+                        (S "/a~b", JObj [(m_get', op_with (S "two") (S "y") s_query)]);
+                        (S "/a%2Fb", JObj [(m_get', op_with (S "three") (S "z") s_query)])])].
+
+Lemma reference_lookup_percent_refuted :
+  plain_entry doc_pct (S "/a%7Eb") m_get' = false /\ mem 37 (S "/a%7Eb") = true /\
+  (exists o o', fresh V30 doc_pct (AByRef (reference_of (S "/a%7Eb") m_get')) = ROp (Val o) /\
+                fresh V30 doc_pct (AGet (S "/a%7Eb") m_get') = ROp (Val o') /\
+                o_path o = S "/a%7Eb" /\ o_raw o = op_with (S "two") (S "y") s_query /\
+                o_raw o' = op_with (S "one") (S "x") s_query /\ o_raw o <> o_raw o') /\
+  fresh V30 doc_pct (AByRef (reference_of (S "/a%2Fb") m_get')) = ROp (Raise ERef) /\
+  (exists o', fresh V30 doc_pct (AGet (S "/a%2Fb") m_get') = ROp (Val o')).
+Proof.
+  split; [vm_compute; reflexivity|]. split; [vm_compute; reflexivity|]. split.
+  - vm_compute. do 2 eexists. repeat split; try reflexivity. discriminate.
+  - split; [vm_compute; reflexivity|]. vm_compute. eexists. reflexivity.
+Qed.
+
+(* the link statistic: the target computed for operationRef = operation_reference is the operation's own key *)
+Lemma operation_ref_target_own doc p m : plain_entry doc p m = true ->
+  operation_ref_target doc (JStr (reference_of p m)) = Some (m, p).
+Proof.
+  intros H. destruct (plain_entry_spec doc p m H) as [kvs [opj P]].
+  destruct (http_method_props m (pl_meth _ _ _ _ _ P)) as [_ [Hs _]].
+  unfold operation_ref_target, resolve_value. rewrite (resolve_reference doc p m kvs opj P).
+  unfold path_of_url. rewrite split_reference by exact Hs. cbn [last_two rev app]. rewrite pointer_roundtrip. reflexivity.
+Qed.
